@@ -21,13 +21,14 @@ fn conversions(rep: &mut Report, tier: Tier) {
             rep.transitions += 2;
             let mut buf = [0u8; 4];
             let exp = c.encode_utf8(&mut buf).as_bytes().to_vec();
+            // both views are compared as bytes: a `str` that is not UTF-8 must never be copied as a String or formatted
             let r = catch(|| {
                 let e = konst::chr::encode_utf8(c);
-                (e.as_bytes().to_vec(), e.as_str().to_string())
+                (e.as_bytes().to_vec(), e.as_str().as_bytes().to_vec())
             });
-            let ok = matches!(&r, Ok((b, s)) if *b == exp && s.as_bytes() == &exp[..]);
+            let ok = matches!(&r, Ok((b, s)) if *b == exp && *s == exp);
             if !ok {
-                rep.violation(viol("char-conv", "encode_utf8", format!("enc|{n}"), format!("encode_utf8({c:?} = U+{n:04X})"), format!("{exp:02x?}"), format!("{r:02x?}")));
+                rep.violation(viol("char-conv", "encode_utf8", format!("enc|{n}"), format!("encode_utf8({c:?} = U+{n:04X})"), format!("as_bytes = as_str bytes = {exp:02x?}"), format!("(as_bytes, as_str bytes) = {r:02x?}")));
             }
             if n < 4 {
                 rep.sample(|| format!("encode_utf8(U+{n:04X})"));
